@@ -46,12 +46,21 @@ type Config struct {
 	MemRate       int64
 	NoFee         bool
 	NewAcctAmount int64
-	MaxBlockMB    int // max block size in MB (0 = 16)
+	MaxBlockMB    int     // max block size in MB (0 = 16)
+	DecayGap      int64   // award decay: height gap (0 = no decay in practice)
+	DecayRatio    float64 // award decay ratio per period
 }
 
 // DefaultConfig is the chain used by most checks: 4 funded identities, award 1000, no gas.
 func DefaultConfig() Config {
 	return Config{Award: "1000", Quota: []string{"1000000", "1000000", "1000000", "1000000"}}
+}
+
+func (c Config) decay() map[string]interface{} {
+	if c.DecayGap > 0 {
+		return map[string]interface{}{"height_gap": c.DecayGap, "ratio": c.DecayRatio}
+	}
+	return map[string]interface{}{"height_gap": 31536000, "ratio": 1}
 }
 
 func (c Config) blockMB() int {
@@ -81,7 +90,7 @@ func (c Config) GenesisJSON() []byte {
 		"award":           c.Award,
 		"decimals":        "8",
 		"nofee":           c.NoFee,
-		"award_decay":     map[string]interface{}{"height_gap": 31536000, "ratio": 1},
+		"award_decay":     c.decay(),
 		"gas_price": map[string]interface{}{"cpu_rate": c.CPURate, "mem_rate": c.MemRate,
 			"disk_rate": c.DiskRate, "xfee_rate": c.XFeeRate},
 		"new_account_resource_amount": c.NewAcctAmount,
